@@ -15,7 +15,7 @@ func init() { props["C18"] = runC18 }
 type TableSpec struct {
 	Editable   int // 0 none, 1 contenteditable=true, 2 contenteditable=TRUE, 3 contenteditable=false
 	Role       string
-	DescRole   int // 0 none, 1 role=row on tr, 2 gridcell on td, 3 navigation on td, 4 only inside nested table, 5 upper-case ROW
+	DescRole   int // 0 none, 1 role=row on tr, 2 gridcell on td, 3 navigation on td, 4 only inside nested table, 5 upper-case ROW, 6 landmark on the nested table element, 7 table-part role on the nested table element
 	Datatable  string
 	Nested     bool
 	Rows, Cols int
@@ -121,7 +121,14 @@ func (s TableSpec) HTML(cellText func() string) string {
 			case i == 0 && j == 1 && s.Header == 9:
 				sb.WriteString(txt)
 			case i == rows-1 && j == 0 && s.Nested:
-				inner := `<table><tr><td`
+				inner := `<table`
+				if s.DescRole == 6 {
+					inner += ` role="navigation"`
+				}
+				if s.DescRole == 7 {
+					inner += ` role="rowgroup"`
+				}
+				inner += `><tr><td`
 				if s.DescRole == 4 {
 					inner += ` role="gridcell"`
 				}
@@ -167,13 +174,17 @@ func randTableSpec(r *Rng) TableSpec {
 		}
 		return 1 + r.Intn(n)
 	}
-	return TableSpec{
-		Editable: pick(3, 80), Role: c18Roles[r.Intn(len(c18Roles))], DescRole: pick(5, 75),
+	s := TableSpec{
+		Editable: pick(3, 80), Role: c18Roles[r.Intn(len(c18Roles))], DescRole: pick(7, 70),
 		Datatable: r.Pick("", "", "", "0", "1"), Nested: r.Chance(12),
 		Rows: c18Rows[r.Intn(len(c18Rows))], Cols: c18Cols[r.Intn(len(c18Cols))],
 		ColSpan: r.Chance(10), RowSpan: r.Chance(8),
 		Header: pick(9, 65), Cell: pick(5, 70), Summary: r.Chance(15), Object: pick(4, 75),
 	}
+	if s.DescRole == 4 || s.DescRole == 6 || s.DescRole == 7 {
+		s.Nested = true // these roles sit on or inside a nested table
+	}
+	return s
 }
 
 func ancestorsOf(t *html.Node) string {
